@@ -73,7 +73,19 @@ class C13(InterpProp):
             enc = ChartEnc(sc)
             payload = {'kind': 'interp', 'charts': [enc.json], 'ops': [['create', 0, self.ignore_contract, [], 0]] + ops1}
             return Case(payload, {'charts': [sc]}, model_ok=enc.supported)
-        return super().gen_case(rnd, tier)
+        case = super().gen_case(rnd, tier)
+        if rnd.random() < 0.08 and not case.payload.get('history'):
+            # clock values finer than a millisecond (exact binary fractions): a time is a time, not a display value
+            fine, last = 0, None
+            for op in case.payload['ops']:
+                if op[0] in ('exec', 'setclock'):
+                    if op[2] != last:
+                        fine = rnd.randint(1, 7) / 4096.0
+                        last = op[2]
+                    op[2] = op[2] + fine
+            case.payload['no_model'] = True
+            case.model_ok = False
+        return case
 
     def make_ops(self, rnd, knobs, sc):
         ops = gen.gen_ops(rnd, knobs, self.n_ops)
@@ -91,6 +103,17 @@ class C13(InterpProp):
         case.aux['run_charts'] = charts
         obs, world = impl.run_case(case.payload, charts, clock_mover=True)
         return obs
+
+    def check_other(self, op, ob, prev_world, gh, res):
+        # the interpreter's time changes at calls to execute_once only — whatever is done to its clock, its queue or
+        # its variables in between (or to another interpreter)
+        try:
+            t0, t1 = prev_world['slots'][0]['time'], ob['world']['slots'][0]['time']
+        except (TypeError, KeyError, IndexError):
+            return
+        if t0 != t1 and not res.violations:
+            res.violations.append('%s changed interpreter.time from %r to %r: it changes only at calls to execute_once'
+                                  % (op[:4], t0, t1))
 
     def check_exec(self, info, res):
         r, gh, sc, trans = info['r'], info['ghost'], info['sc'], info['trans']
